@@ -157,6 +157,9 @@ def misuse_matrix(ctx):
         t(lname + ' layer: mixed expression x_A + x_B', two(lambda A, xa, B, xb: A.st(xa[0] + xb[0] <= 1)))
         t(lname + ' layer: concat([x_A, x_B])', two(lambda A, xa, B, xb: A.st(rso.concat([xa, xb]) <= 1)))
         t(lname + ' layer: rstack(x_A, x_B)', two(lambda A, xa, B, xb: A.st(rso.rstack(xa, xb) <= 1)))
+        t(lname + ' layer: concat([x_A, x_B]) added to B', two(lambda A, xa, B, xb: B.st(rso.concat([xa, xb]) <= 1)))
+        t(lname + ' layer: cstack(x_B, x_A) added to A', two(lambda A, xa, B, xb: A.st(rso.cstack(xb, xa) <= 1)))
+        t(lname + ' layer: objective vec(x_A, x_B).sum() of B', two(lambda A, xa, B, xb: (B.min(rso.concat([xa, xb]).sum()), B.st(xb >= 0), B.solve(display=False), B.get())))
         t(lname + ' layer: objective of another model', two(lambda A, xa, B, xb: (A.min(xb.sum()), A.st(xa >= 0), A.solve(display=False), A.get())))
 
     def amb_after(A, xa, za):
@@ -257,7 +260,7 @@ def params_do_not_leak(ctx, seed):
         with C.quiet():
             B0 = build_b(); B0.solve(grb_solver, display=False); ref = B0.get()
             A = ro.Model(); xa = A.dvar(2); A.min(xa.sum()); A.st(xa >= 1, xa <= 3)
-            A.solve(grb_solver, display=False, params={'Cutoff': 2.5, 'SolutionLimit': 1, 'BestObjStop': 100.0})
+            A.solve(grb_solver, display=False, params={'Cutoff': -1e6, 'SolutionLimit': 1})
             B1 = build_b(); B1.solve(grb_solver, display=False)
             try:
                 after = B1.get()
